@@ -563,9 +563,71 @@ pub fn execute_c05(plan: &Plan) -> Outcome {
             cases.push((DirScript { reflect: true, ..Default::default() }, "reflect the stream to its sender".into(), 0));
         }
     }
+    // a second connection of the same client gets the first connection's stream in this direction (whole, and cut behind the
+    // first flight and at drawn places): a response must be bound to its own request (2022: request salt, VMess: keys derived
+    // from the request), a 2022 request is a replay. Legacy Shadowsocks has nothing that ties a stream to a connection.
+    if plan.extra.get("only_scripts").is_none() && baseline_ok && n > 2 && (is_2022(&plan.config.cipher) || (plan.config.proto == Proto::Vmess && dir == "s2c")) && !ws {
+        let mut g = Gen::new(plan.extra["sub_seed"].as_u64().unwrap_or(1), 12);
+        let lo = exempt.max(1);
+        let mut variants: Vec<Vec<u64>> = vec![vec![], vec![lo]];
+        for _ in 0..4 {
+            if n > lo + 2 {
+                let mut c = vec![lo, g.range(lo + 1, n - 1)];
+                if g.chance(50) {
+                    c.push(g.range(lo + 1, n - 1));
+                }
+                c.sort();
+                c.dedup();
+                variants.push(c);
+            }
+        }
+        for cuts in variants {
+            cases.push((DirScript { splice_first_conn: true, cuts: cuts.clone(), gap_ms: 100, ..Default::default() }, format!("the stream of an earlier connection spliced into a later one, cut at {cuts:?}"), 0));
+        }
+    }
     let mut first_failing: BTreeMap<String, DirScript> = BTreeMap::new();
     for (script, what, at) in cases {
         let reflect = script.reflect;
+        if script.splice_first_conn {
+            // two flows one after the other; the second one is the victim
+            let mut two = plan.clone();
+            let mut f1 = two.flows[0].clone();
+            f1.start_ms = two.flows[0].start_ms + 4_000;
+            // (a target of its own: another port of another host, addressed by its IPv4 address)
+            f1.target_name = None;
+            f1.target_ip[3] ^= 1;
+            f1.target_port = if f1.target_port < 60_000 { f1.target_port + 1 } else { f1.target_port - 1 };
+            if f1.hs == LocalHs::Socks5Domain {
+                f1.hs = LocalHs::Socks5V4;
+            }
+            two.flows.push(f1);
+            let lr = run_link(&two, &dir, script.clone());
+            evals += 1;
+            sim_ns += lr.sim_ns;
+            polls += lr.polls;
+            ev_count += lr.ev_count;
+            add_stats(&mut stats, &lr.stats);
+            *probes.entry("cross_connection_splices".to_owned()).or_insert(0) += 1;
+            panics.extend(lr.panics.clone());
+            if let Some(o1) = lr.run.flows.get(1) {
+                let got = if dir == "c2s" { &o1.target.recv } else { &o1.app.recv };
+                let want1 = if dir == "c2s" { expected_up(&two.flows[1], 1) } else { expected_down(&two.flows[1], 1) };
+                if first_mismatch(got, &want1).is_some() {
+                    let v = Violation::new("C05", format!("C05/spliced-from-another-connection-accepted/{cell}/{dir}"), format!("{what}: the second connection's receiver was handed {} bytes that its own sender never wrote", got.len()));
+                    if !violations.iter().any(|x| x.signature == v.signature) {
+                        first_failing.insert(v.signature.clone(), script.clone());
+                        violations.push(v);
+                    }
+                }
+            }
+            for p in &lr.panics {
+                let v = Violation::new("C05", format!("C05/panic/{cell}/{dir}/{}", p.frame), format!("{what}: panic in node {}: {} at {}", p.node, p.message, p.location));
+                if !violations.iter().any(|x| x.signature == v.signature) {
+                    violations.push(v);
+                }
+            }
+            continue;
+        }
         let lr = run_link(plan, &dir, script.clone());
         evals += 1;
         sim_ns += lr.sim_ns;
